@@ -230,6 +230,7 @@ func workloads() []workload {
 		{"large-builds", "NewBVHAreaDensity / MeshToCollider / MeshToSDF / NewCoordTree over more than 20000 objects (2D and 3D): builds are deterministic, complete and race-free, then queried concurrently", wLargeBuilds},
 		{"participating-medium", "render3d.ParticipatingMedium.Cast on one shared medium object, directly and inside a render", wMedium},
 		{"joined-shared-child", "model3d.NewJoinedCollider: several goroutines build and query their own join over one shared child collider", wJoinedSharedChild},
+		{"profile-flat-rays", "model3d.ProfileCollider: rays lying in a z plane (several outline crossings each) enumerated with callbacks that yield the processor, by many goroutines on few processors", wProfileFlatRays},
 	}
 }
 
@@ -1071,6 +1072,79 @@ func wWrappedColliders(w *wctx) {
 			i := (k*13 + g*17) % nq
 			if got := answer(qs[i]); got != want[i] {
 				w.behav(fmt.Sprintf("model3d.Collider[%d]/concurrent-equals-sequential", qs[i].coll), fmt.Sprintf("concurrent answer %q, sequential answer %q", got, want[i]))
+				return
+			}
+		}
+		w.ops(nq)
+	})
+}
+
+// wProfileFlatRays: one extruded outline shared by all goroutines; most rays lie in a plane of
+// constant z and cross the outline several times. The callbacks yield the processor between hits
+// (a caller doing real work per collision), and the workload runs on two processors so that the
+// goroutines take turns on the same P while enumerations are under way.
+func wProfileFlatRays(w *wctx) {
+	old := runtime.GOMAXPROCS(2)
+	defer runtime.GOMAXPROCS(old)
+	outline := model2d.NewMeshPolar(func(t float64) float64 { return 1 + 0.45*math.Sin(5*t) }, 80)
+	squares := model2d.NewMeshRect(model2d.XY(2, -0.5), model2d.XY(3, 0.5))
+	squares.AddMesh(model2d.NewMeshRect(model2d.XY(4, -0.5), model2d.XY(5, 0.5)))
+	colls := []model3d.Collider{
+		model3d.ProfileCollider(model2d.MeshToCollider(outline), -0.5, 0.7),
+		model3d.ProfileCollider(model2d.MeshToCollider(squares), 0, 1),
+	}
+	nq := 300
+	type query struct {
+		ray  *model3d.Ray
+		coll int
+	}
+	qs := make([]query, nq)
+	for i := range qs {
+		ci := i % len(colls)
+		z := -0.4 + w.rng.Float64()
+		if ci == 1 {
+			z = 0.1 + 0.8*w.rng.Float64()
+		}
+		th := w.rng.Float64() * 2 * math.Pi
+		o := model3d.XYZ(8*math.Cos(th), 8*math.Sin(th), z)
+		tgt := model3d.XYZ(0.3*w.rng.NormFloat64(), 0.3*w.rng.NormFloat64(), z)
+		if ci == 1 {
+			o = model3d.XYZ(-1-w.rng.Float64(), 0.4*(2*w.rng.Float64()-1), z)
+			tgt = model3d.XYZ(6, 0.4*(2*w.rng.Float64()-1), z)
+		}
+		if i%5 == 4 {
+			tgt.Z += w.rng.NormFloat64() // some rays are not flat
+		}
+		qs[i] = query{&model3d.Ray{Origin: o, Direction: tgt.Sub(o)}, ci}
+	}
+	answer := func(q query, yield bool) string {
+		var scales []float64
+		n := colls[q.coll].RayCollisions(q.ray, func(rc model3d.RayCollision) {
+			scales = append(scales, rc.Scale)
+			if yield {
+				for k := 0; k < 3; k++ {
+					runtime.Gosched()
+				}
+			}
+		})
+		return fmt.Sprintf("%d %x", n, scales)
+	}
+	want := make([]string, nq)
+	multi := 0
+	for i, q := range qs {
+		want[i] = answer(q, false)
+		if strings.Count(want[i], "0x") >= 3 {
+			multi++
+		}
+	}
+	if multi < nq/4 {
+		w.behav("harness/profile-flat-rays", fmt.Sprintf("only %d of %d rays cross the outline three or more times", multi, nq))
+	}
+	w.parallel(w.gos, func(g int, _ *rand.Rand) {
+		for k := 0; k < nq; k++ {
+			i := (k*13 + g*17) % nq
+			if got := answer(qs[i], true); got != want[i] {
+				w.behav("model3d.ProfileCollider.RayCollisions/concurrent-equals-sequential", fmt.Sprintf("collisions reported to the callback %q, sequential answer %q (ray %v)", got, want[i], *qs[i].ray))
 				return
 			}
 		}
